@@ -357,3 +357,13 @@ Print Assumptions C14_layout_enter_bracket.
 Print Assumptions C14_bracket_sane.
 Print Assumptions C14_nl_in_brackets.
 Print Assumptions C14_ws_token.
+
+(* ---- source tie: the hand-written model behind these theorems mirrors the files below; the digests of their
+   functions regenerated from /repo on this run equal the reviewed ones (coq/Doc/DocSrcDigest.v).  Any edit of
+   such a function breaks this obligation: the differential tie and the oracle then decide (tools/check.py). *)
+From Sylt Require Doc.SrcDigest Doc.DocSrcDigest Gen.GenSrcDigest.
+Theorem C14_model_sources_reviewed :
+  Sylt.Doc.SrcDigest.sources_reviewed ["sylt-parser/src/parser.rs"%string; "sylt-parser/src/expression.rs"%string; "sylt-parser/src/statement.rs"%string]
+    Sylt.Doc.DocSrcDigest.doc_src_digests Sylt.Gen.GenSrcDigest.src_digests = true.
+Proof. vm_compute. reflexivity. Qed.
+Print Assumptions C14_model_sources_reviewed.
